@@ -58,6 +58,16 @@ pub fn check(tree: &Tree, l: &mut Local) -> CaseResult {
         if r.is_err() || cw.accepted != b1 {
             return Err(fail("schema-wire", format!("to_io(borrowed schema) into a short-writing sink delivered {}, to_allocvec gives {}", hex(&cw.accepted), hex(&b1)), cj()));
         }
+        // ... and the host reads it from a stream that delivers a few bytes per call
+        {
+            let mut scratch = vec![0u8; b1.len() + 16];
+            let rd = crate::iodoubles::ChunkReader::new(&b1, crate::iodoubles::Schedule { chunks: vec![2, 1, 5, 64], interrupt_every: 5 }, crate::iodoubles::Fault::None);
+            let back = no_panic(|| postcard::from_io::<OwnedDataModelType, _>((rd, &mut scratch[..])).map(|(o, _)| o)).map_err(|p| fail("schema-wire", format!("from_io panicked: {}", p), cj()))?;
+            match back {
+                Ok(o) if schematree::from_owned(&o) == *tree => {}
+                other => return Err(fail("schema-wire", format!("the schema read through from_io from a stream with short reads is received as {:?}", other), cj())),
+            }
+        }
         let framed = no_panic(|| postcard::to_allocvec_cobs(st)).map_err(|p| fail("schema-wire", format!("to_allocvec_cobs of the borrowed schema panicked: {}", p), cj()))?;
         match framed {
             Ok(mut f) => {
